@@ -42,6 +42,8 @@ EXT_RAISES = {
     "urllib.parse.urlparse": ("ValueError",), "parse.urlsplit": ("ValueError",), "parse.urlparse": ("ValueError",),
     "urllib.parse.unquote": (), "unquote": (), "urllib.parse.quote": (), "quote": (),
     "ipaddress.ip_network": ("ValueError",), "ip_address": ("ValueError",), "ip_network": ("ValueError",),
+    "warnings.catch_warnings": (), "catch_warnings": (), "warnings.simplefilter": (), "simplefilter": (),
+    "warnings.filterwarnings": (), "filterwarnings": (), "warnings.resetwarnings": (),
     "json.loads": ("ValueError",), "json.dumps": ("ValueError", "OverflowError", "TypeError"),
     "loads": ("ValueError",), "dumps": ("ValueError", "OverflowError", "TypeError"),
     "open": ("OSError",), "materialize": ("Exception",), "RefDict.from_uri": ("Exception",),
